@@ -383,6 +383,7 @@ static Fiber* find_fiber(int id) {
 using namespace detail;
 
 // ------------------------------------------------------------------ public API
+void fail_run(const std::string& why) { abort_run("driver: " + why); }
 bool in_sim() { return sim(); }
 Knobs& knobs() { return K.knobs; }
 Rng& rng() { return K.rng; }
